@@ -33,7 +33,20 @@ def value(rng, bits):
     if bits == 0:
         return 0
     m = 1 << bits
-    c = rng.randrange(14)
+    c = rng.randrange(15)
+    if c == 14:
+        # the same word (single bit, small, all-ones or random) replicated in a random subset of the limbs
+        n = nlimbs(bits)
+        w = rng.choice([1 << rng.randrange(64), rng.randrange(1, 9), 2**64 - 1, 2**63, rng.getrandbits(64) | 1])
+        v = 0
+        k = 0
+        for i in range(n):
+            if rng.random() < 0.6:
+                v |= w << (64 * i)
+                k += 1
+        if k == 0:
+            v = w
+        return v & (m - 1)
     if c == 0:
         return 0
     if c == 1:
